@@ -61,7 +61,7 @@ type scenario struct {
 	tg    map[string]*target // by kind
 	tw    map[string]*target // the twin message of the kind's target, as a target of its own
 	// the same messages with the signatures collected in another order
-	// (index into orders; 0 is the default order and lives in tg / tw)
+	// or with extreme numeric values (index into variants; 0 is the default and lives in tg / tw)
 	alt   map[int]map[string]*target
 	altTw map[int]map[string]*target
 	// facts the reference encoder needs, read from chain state (not from the verifier)
@@ -131,18 +131,38 @@ func (s *scenario) valByValAddr(addr string) *world.Val {
 	panic("no validator " + addr)
 }
 
-// orders are the signature collection orders (validator indices): the default
-// (which is also the valset order, shares 3:2:1), reversed, one rotation, and the
-// remaining three permutations.
-var orders = [][]int{{0, 1, 2}, {2, 1, 0}, {1, 2, 0}, {0, 2, 1}, {1, 0, 2}, {2, 0, 1}}
-
-func orderName(oi int) string {
-	var p []string
-	for _, v := range orders[oi] {
-		p = append(p, fmt.Sprintf("v%d", v))
-	}
-	return strings.Join(p, ",")
+// variantT is one way of bringing the queued messages to the evidence stage.
+type variantT struct {
+	Name  string
+	Order []int  // signature collection order (validator indices)
+	Est   uint64 // gas estimate every validator reports (0 = ordinary, distinct estimates)
+	Comm  string // community / security fee rates set by governance before the election ("" = unchanged)
+	Sec   string
 }
+
+const numOrders = 6
+
+// variants: the 6 signature collection orders (the first is the default and is
+// also the valset order, shares 3:2:1), then extreme numeric values reached
+// through the real paths: all validators report a gas estimate of 2^63-1, 2^63
+// or 2^64-1 (elected as is; becomes the gas_estimate word of UpdateValset /
+// CompassHandover and, times the relayer's multiplier 1.0 and the governance
+// rates, the three fee words of SubmitLogicCall / UploadUserSmartContract).
+var variants = []variantT{
+	{Name: "", Order: []int{0, 1, 2}},
+	{Name: "collected=v2,v1,v0", Order: []int{2, 1, 0}},
+	{Name: "collected=v1,v2,v0", Order: []int{1, 2, 0}},
+	{Name: "collected=v0,v2,v1", Order: []int{0, 2, 1}},
+	{Name: "collected=v1,v0,v2", Order: []int{1, 0, 2}},
+	{Name: "collected=v2,v0,v1", Order: []int{2, 0, 1}},
+	{Name: "estimate=2^63-1,rates=1.0/1.0", Order: []int{0, 1, 2}, Est: 1<<63 - 1, Comm: "1.0", Sec: "1.0"},
+	{Name: "estimate=2^63,rates=1.0/1.0", Order: []int{0, 1, 2}, Est: 1 << 63, Comm: "1.0", Sec: "1.0"},
+	{Name: "estimate=2^64-1,rates=1.0/1.0", Order: []int{0, 1, 2}, Est: 1<<64 - 1, Comm: "1.0", Sec: "1.0"},
+	{Name: "estimate=2^63,rates=1.9/0.5", Order: []int{0, 1, 2}, Est: 1 << 63, Comm: "1.9", Sec: "0.5"},
+	{Name: "estimate=2^63,rates=0.5/0.5", Order: []int{0, 1, 2}, Est: 1 << 63, Comm: "0.5", Sec: "0.5"},
+}
+
+func (v variantT) group() string { return fmt.Sprintf("%d/%s/%s", v.Est, v.Comm, v.Sec) }
 
 func baseName(stem string, oi int) string {
 	if oi == 0 {
@@ -153,7 +173,7 @@ func baseName(stem string, oi int) string {
 
 // estimate: every validator estimates every message that needs it, then the
 // end-block elects the estimate and attaches the fees.
-func (s *scenario) estimate(ctx sdk.Context) {
+func (s *scenario) estimate(ctx sdk.Context, est uint64) {
 	w := s.w
 	q := s.queue
 	need := false
@@ -166,7 +186,7 @@ func (s *scenario) estimate(ctx sdk.Context) {
 					have = have || sdk.ValAddress(ge.ValAddress).Equals(v.ValAddr)
 				}
 				if !have {
-					mustOK("estimate", w.DeliverTx(ctx, []*world.Actor{v.Actor}, world.Estimate(v, q, m.GetId(), uint64(210000+1000*k))))
+					mustOK("estimate", w.DeliverTx(ctx, []*world.Actor{v.Actor}, world.Estimate(v, q, m.GetId(), estimateOf(est, k))))
 				}
 			}
 		}
@@ -174,6 +194,40 @@ func (s *scenario) estimate(ctx sdk.Context) {
 	if need {
 		must(w.EndBlock(ctx))
 	}
+}
+
+func estimateOf(est uint64, k int) uint64 {
+	if est != 0 {
+		return est
+	}
+	return uint64(210000 + 1000*k)
+}
+
+// groups builds, per variant group, the state after estimates + election on a
+// fork of pre, then per variant the signed base on a fork of that.
+func (s *scenario) groups(stem string, pre func(v variantT) (sdk.Context, error)) error {
+	done := map[string]sdk.Context{}
+	for vi, v := range variants {
+		g, ok := done[v.group()]
+		if !ok {
+			var err error
+			g, err = pre(v)
+			if err != nil {
+				return fmt.Errorf("variant %q: %w", v.Name, err)
+			}
+			if v.Comm != "" {
+				must(s.w.App.TreasuryKeeper.SetCommunityFundFee(g, v.Comm))
+				must(s.w.App.TreasuryKeeper.SetSecurityFee(g, v.Sec))
+			}
+			s.estimate(g, v.Est)
+			done[v.group()] = g
+		}
+		c := world.Fork(g)
+		s.sign(c, v.Order)
+		s.bases[baseName(stem, vi)] = c
+		s.collect(c, baseName(stem, vi), vi)
+	}
+	return nil
 }
 
 // sign: the validators sign every message that still lacks their signature, in
@@ -338,13 +392,8 @@ func newScenario() *scenario {
 	_, err = w.App.EvmKeeper.AddUploadSmartContractToConsensus(ctx, ref, up)
 	must(err)
 
-	s.estimate(ctx)
-	for oi := range orders {
-		c := world.Fork(ctx)
-		s.sign(c, orders[oi])
-		s.bases[baseName("B", oi)] = c
-		s.collect(c, baseName("B", oi), oi)
-	}
+	// ctx (the root) is not written any more from here on
+	must(s.groups("B", func(variantT) (sdk.Context, error) { return world.Fork(ctx), nil }))
 	for _, k := range []string{kSLC, kValset, kUpload, kUSC} {
 		if s.tg[k] == nil {
 			panic("missing target " + k)
@@ -361,37 +410,41 @@ func newScenario() *scenario {
 // handover and a content-identical copy to the evidence stage.
 func (s *scenario) buildHandoverBase(proof *evmtypes.TxExecutedProof) error {
 	w := s.w
-	ctx := world.Fork(s.bases["B"])
-	t := s.tg[kUpload]
-	for _, v := range w.Vals {
-		if r := w.DeliverTx(ctx, []*world.Actor{v.Actor}, world.Evidence(v, s.queue, t.ID, proof)); !r.OK() {
-			return fmt.Errorf("evidence: %v", r.Err)
+	first := map[string]int{}
+	for vi, v := range variants {
+		if _, ok := first[v.group()]; !ok {
+			first[v.group()] = vi
 		}
 	}
-	s.cap.Reset()
-	if err := w.EndBlock(ctx); err != nil {
+	err := s.groups("H", func(v variantT) (sdk.Context, error) {
+		ctx := world.Fork(s.bases[baseName("B", first[v.group()])])
+		t := s.tg[kUpload]
+		for _, v := range w.Vals {
+			if r := w.DeliverTx(ctx, []*world.Actor{v.Actor}, world.Evidence(v, s.queue, t.ID, proof)); !r.OK() {
+				return ctx, fmt.Errorf("evidence: %v", r.Err)
+			}
+		}
+		s.cap.Reset()
+		if err := w.EndBlock(ctx); err != nil {
+			return ctx, err
+		}
+		if h := *s.cap.Hits; len(h) > 0 {
+			return ctx, fmt.Errorf("valid UploadSmartContract proof refused: %s", h[0])
+		}
+		var hid uint64
+		for _, m := range w.Queue(ctx, s.queue) {
+			if kindOf(s.evmMsg(m)) == kHandover {
+				hid = m.GetId()
+			}
+		}
+		if hid == 0 {
+			return ctx, fmt.Errorf("no CompassHandover scheduled after the UploadSmartContract attestation")
+		}
+		s.clone(ctx, hid)
+		return world.Advance(ctx, 1, 2*time.Second), nil
+	})
+	if err != nil {
 		return err
-	}
-	if h := *s.cap.Hits; len(h) > 0 {
-		return fmt.Errorf("valid UploadSmartContract proof refused: %s", h[0])
-	}
-	var hid uint64
-	for _, m := range w.Queue(ctx, s.queue) {
-		if kindOf(s.evmMsg(m)) == kHandover {
-			hid = m.GetId()
-		}
-	}
-	if hid == 0 {
-		return fmt.Errorf("no CompassHandover scheduled after the UploadSmartContract attestation")
-	}
-	s.clone(ctx, hid)
-	ctx = world.Advance(ctx, 1, 2*time.Second)
-	s.estimate(ctx)
-	for oi := range orders {
-		c := world.Fork(ctx)
-		s.sign(c, orders[oi])
-		s.bases[baseName("H", oi)] = c
-		s.collect(c, baseName("H", oi), oi)
 	}
 	if s.tg[kHandover] == nil || s.tg[kHandover].Twin == 0 {
 		return fmt.Errorf("handover target missing")
